@@ -6,6 +6,8 @@ package c10
 
 import (
 	"bufio"
+	"crypto/sha256"
+	"encoding/hex"
 	"encoding/json"
 	"fmt"
 	"os"
@@ -366,6 +368,7 @@ func Main(args []string) int {
 	}
 	// race reports
 	reports := RaceReports(filepath.Join(scratch, "race*"))
+	binaryStage(r, scratch)
 	r.Set("race_reports_distinct", len(reports))
 	for key, blk := range reports {
 		r.Violate("data-race:"+key, "race detector report in the generator: "+key, map[string]any{"frames": key, "report": blk})
@@ -376,6 +379,89 @@ func Main(args []string) int {
 }
 
 func tail(s string, n int) string {
+	if len(s) > n {
+		return s[len(s)-n:]
+	}
+	return s
+}
+
+// binaryStage: the real file system writer. cmd/ogen (race-instrumented) regenerates a document over a target
+// directory that holds an outdated generation (made from another document, so every file differs), without --clean,
+// under several GOMAXPROCS values; every file the run writes must be byte-identical to the file of a generation of the
+// same document into an empty directory. The in-process part above writes through a recording file system and never
+// meets what the file-system implementation does when files already exist.
+func binaryStage(r *ev.Run, scratch string) {
+	repo := ev.RepoDir()
+	bin := filepath.Join(scratch, "ogen-race")
+	if out, err := genlab.RunIn(repo, 20*time.Minute, genlab.GoEnv(), "go", "build", "-race", "-o", bin, "./cmd/ogen"); err != nil {
+		r.Inconclusive("binary-stage-build-failed", out)
+		return
+	}
+	td := filepath.Join(repo, "_testdata")
+	docs := []string{filepath.Join(td, "positive", "sample.json"), filepath.Join(td, "examples", "petstore-expanded.yml")}
+	other := filepath.Join(td, "positive", "http_requests.json")
+	raceLog := filepath.Join(scratch, "race-bin")
+	gen := func(target, doc string, procs int) (string, error) {
+		env := genlab.GoEnv(fmt.Sprintf("GOMAXPROCS=%d", procs), "GORACE=halt_on_error=0 log_path="+raceLog)
+		return genlab.RunIn(scratch, 10*time.Minute, env, bin, "--target", target, "--package", "api", doc)
+	}
+	read := func(dir string) map[string]string {
+		out := map[string]string{}
+		ents, _ := os.ReadDir(dir)
+		for _, e := range ents {
+			if b, err := os.ReadFile(filepath.Join(dir, e.Name())); err == nil {
+				h := sha256.Sum256(b)
+				out[e.Name()] = hex.EncodeToString(h[:8])
+			}
+		}
+		return out
+	}
+	rounds := r.N(6, 30)
+	for di, doc := range docs {
+		id := strings.TrimPrefix(doc, td+"/")
+		refDir := filepath.Join(scratch, fmt.Sprintf("bin-ref-%d", di))
+		if out, err := gen(refDir, doc, 4); err != nil {
+			r.Inconclusive("binary-stage-reference-generation-failed", id+": "+tailN(out, 400))
+			continue
+		}
+		ref := read(refDir)
+		for k := 0; k < rounds; k++ {
+			target := filepath.Join(scratch, fmt.Sprintf("bin-%d-%d", di, k))
+			if out, err := gen(target, other, 4); err != nil {
+				r.Inconclusive("binary-stage-outdated-generation-failed", tailN(out, 400))
+				break
+			}
+			procs := []int{1, 4, 16, 2, 8, 5}[k%6]
+			out, err := gen(target, doc, procs)
+			r.Eval(1)
+			r.Distinct(fmt.Sprintf("bin|%s|%d", id, k))
+			r.Count("regenerations_over_outdated_directory", 1)
+			if err != nil {
+				r.Violate("regeneration-over-outdated-directory-fails:"+id, fmt.Sprintf("%s: generation into a directory holding an outdated package failed (GOMAXPROCS=%d): %s", id, procs, tailN(out, 300)), map[string]any{"document": id, "gomaxprocs": procs, "output": tailN(out, 1500)})
+				os.RemoveAll(target)
+				continue
+			}
+			got := read(target)
+			var bad []string
+			for n, h := range ref {
+				if got[n] != h {
+					bad = append(bad, n)
+				}
+			}
+			sort.Strings(bad)
+			if len(bad) > 0 {
+				r.Violate("regeneration-over-outdated-directory-differs:"+id, fmt.Sprintf("%s: %d files differ from the generation into an empty directory (GOMAXPROCS=%d): %v", id, len(bad), procs, bad), map[string]any{"document": id, "gomaxprocs": procs, "files_differing": bad, "outdated_directory_made_from": strings.TrimPrefix(other, td+"/")})
+			}
+			os.RemoveAll(target)
+		}
+		os.RemoveAll(refDir)
+	}
+	for k, rep := range RaceReports(raceLog + ".*") {
+		r.Violate("data-race:"+k, "race detector report in cmd/ogen while regenerating over an outdated directory: "+k, map[string]any{"report": rep})
+	}
+}
+
+func tailN(s string, n int) string {
 	if len(s) > n {
 		return s[len(s)-n:]
 	}
